@@ -1,6 +1,7 @@
 package main
 
 import (
+	"bytes"
 	"crypto/sha256"
 	"encoding/hex"
 	"fmt"
@@ -311,6 +312,33 @@ func twoDecOf(v, a, b float64) bool {
 	ulp := math.Abs(math.Nextafter(s, math.Inf(1)) - s)
 	diff := math.Abs((v - s) - e)
 	return diff <= 0.005+2*ulp+1e-18
+}
+
+// digestNoOwner: DXF only - the digest of the file with the values of the
+// handle-reference groups (owner 330, plot style 390, ...) blanked. Used to tell known finding K2
+// (owner handles of the shared table records) from any other difference.
+func (s *sinkState) digestNoOwner() string {
+	if s.sink != "dxf" {
+		return ""
+	}
+	b, err := os.ReadFile(s.path)
+	if err != nil {
+		return "error:" + err.Error()
+	}
+	lines := bytes.Split(b, []byte("\n"))
+	h := sha256.New()
+	for i := 0; i < len(lines); i++ {
+		h.Write(lines[i])
+		h.Write([]byte("\n"))
+		if i%2 == 0 && i+1 < len(lines) {
+			// handle-reference groups: 320-369 (owner and other pointers), 390-399 (plot style)
+			if c, err := strconv.Atoi(string(bytes.TrimSpace(lines[i]))); err == nil && ((c >= 320 && c <= 369) || (c >= 390 && c <= 399)) {
+				i++ // skip the handle value
+				h.Write([]byte("<handle>\n"))
+			}
+		}
+	}
+	return hex.EncodeToString(h.Sum(nil))[:32]
 }
 
 // digest of the sink content for cross-execution comparison (C09).
